@@ -8,8 +8,10 @@ package x25519
 
 import (
 	"bytes"
+	"encoding/binary"
 	"fmt"
 	"math/big"
+	"math/bits"
 	"sync"
 	"testing"
 
@@ -367,8 +369,9 @@ func TestVerifC06Primitives(t *testing.T) {
 	p := c06Curve.P
 	md := func(v *big.Int) *big.Int { return v.Mod(v, p) }
 	vlib.Check(t, vlib.N(4000, 60000), func(t *rapid.T) {
-		op := rapid.SampledFrom([]string{"ladderStep", "ladderStep", "diffAdd", "double", "mulA24", "ladderStep", "ladderStep", "double", "diffAdd"}).Draw(t, "op")
+		op := rapid.SampledFrom([]string{"ladderStep", "ladderStep", "diffAdd", "double", "mulA24", "mulA24", "ladderStep", "ladderStep", "double", "diffAdd"}).Draw(t, "op")
 		structured := rapid.Bool().Draw(t, "structured") && op != "mulA24"
+		solvedA24 := op == "mulA24" && rapid.IntRange(0, 2).Draw(t, "solved") > 0
 		b := uint(rapid.IntRange(0, 1).Draw(t, "b"))
 		var w [5]fp.Elt
 		var v [5]*big.Int
@@ -380,6 +383,43 @@ func TestVerifC06Primitives(t *testing.T) {
 			if cls != "uniform" {
 				edge = true
 			}
+		}
+		if solvedA24 {
+			// operand SOLVED for the partial sums of x*a24: the limbs are limb-structured, then limb i+1 is replaced by
+			// the solution of hi(l_i*a24) + lo(l_{i+1}*a24) = 2^64 + e, e in {-2..2} (a24 is even: the target is made
+			// even and divided by 2), so that the carry between the columns i+1 and i+2 sits at its boundary; the chain
+			// may continue through all-ones columns above.
+			words := Size / 8
+			limbs := make([]uint64, words)
+			lv := vlib.LE(vlib.Limbs(t, words, 19, "a24limbs"), Size)
+			for i := range limbs {
+				limbs[i] = binary.LittleEndian.Uint64(lv[8*i:])
+			}
+			const a24 = uint64(121666)
+			half := new(big.Int).SetUint64(a24 / 2)
+			mod63 := new(big.Int).Lsh(big.NewInt(1), 63)
+			inv := new(big.Int).ModInverse(half, mod63)
+			for rep := rapid.IntRange(1, 2).Draw(t, "pairs"); rep > 0; rep-- {
+				i := rapid.IntRange(0, words-2).Draw(t, "pair")
+				hi, _ := bits.Mul64(limbs[i], a24)
+				e := uint64(rapid.IntRange(-2, 2).Draw(t, "e"))
+				target := (e - hi) &^ 1 // lo(l*a24) is even
+				sol := new(big.Int).Mul(new(big.Int).SetUint64(target/2), inv)
+				sol.Mod(sol, mod63)
+				l := sol.Uint64()
+				if rapid.Bool().Draw(t, "top") {
+					l |= 1 << 63
+				}
+				limbs[i+1] = l
+			}
+			buf := make([]byte, Size)
+			for i, l := range limbs {
+				binary.LittleEndian.PutUint64(buf[8*i:], l)
+			}
+			w[0] = fp.Elt{}
+			copy(w[0][:], buf)
+			v[0] = c06Int(&w[0])
+			edge = true
 		}
 		if structured {
 			// product-structured operands: the step multiplies A = x2+z2 by D = x3-z3 and squares A, B (or C, D),
@@ -504,7 +544,9 @@ func TestVerifC06Primitives(t *testing.T) {
 			case "mulA24":
 				good = c06Int(&z).Cmp(md(new(big.Int).Mul(c06A24, v[0]))) == 0
 			}
-			if structured {
+			if solvedA24 {
+				vlib.Class(sub, "op="+op+"/"+be.name+"/carry-solved")
+			} else if structured {
 				vlib.Class(sub, "op="+op+"/"+be.name+"/product-structured")
 			} else {
 				vlib.Class(sub, "op="+op+"/"+be.name)
